@@ -146,9 +146,7 @@ def c17_disconnect_step(ctx, v):
         if o.kind in ("unsupported", "unwound", "path-limit"):
             return v.undecided("%s %s" % (o.kind, o.info))
         if o.kind == "panic":
-            v.queries += 1
-            if ex.feasible(o.pc):
-                v.fail("mark_as_disconnected panics: %s" % o.info)
+            L.report_panic(v, ex, o, "mark_as_disconnected panics: %s" % o.info)
             continue
         if o.kind != "return":
             continue
@@ -185,6 +183,7 @@ def c17_challenge_issue_step(ctx, v):
 
         def hook(ex_, st, callee, args, dty, rnd=rnd):
             if re.search(r"generate_random_bytes$", callee):
+                st.events.append(("rnd", callee, args, None))
                 return S.Agg("struct", "ReadyFuture", [ex_.copy_value(rnd)])
             if re.search(r"(?:^|::)crypto::sign$|^sign$", callee):
                 sig = ex_.fresh_value("[u8; 64]", "signature!%d" % next(ex_.fresh_counter))
@@ -224,6 +223,8 @@ def c17_challenge_issue_step(ctx, v):
             if ex.feasible(o.pc, z3.And(is_ok, z3.Not(enum_is(ex, pch, "Some")))):
                 v.fail("%s returns Ok without an outstanding challenge recorded" % which)
                 continue
+            if not [e for e in o.events if e[0] == "rnd"]:
+                return v.undecided("%s: the randomness source (generate_random_bytes) was not recognised on a path that records a challenge" % which)
             stored = payload(ex, pch, "Some")
             same = z3.And(*[z3.Select(stored.arr, z3.BitVecVal(i, 64)) == z3.Select(rnd.arr, z3.BitVecVal(i, 64)) for i in range(32)])
             v.queries += 1
@@ -338,7 +339,7 @@ def c17_network_gate(ctx, v):
                             S.Opaque("wallet_lock", "Arc<RwLock<Wallet>>"), S.Opaque("blockchain_lock", "Arc<RwLock<Blockchain>>"), S.Opaque("configs_lock", "Arc<RwLock<dyn Configuration>>")])
     outs = ex.run(body, [S.Ref(S.Cell(co), (), True), S.Opaque("cx", "Context")], st)
     v.paths += len(outs)
-    AUTH = r"remove_reconnected_peer$|(?:AHashMap|HashMap)::<\[u8; 33\], u64[^>]*>::insert$|send_interface_event$|request_blockchain_from_peer$|join_as_reconnection$|as IntoIterator>::into_iter$"
+    AUTH = r"remove_reconnected_peer$|(?:AHashMap|HashMap)::<\[u8; 33\], u64[^>]*>::insert$|request_blockchain_from_peer$|join_as_reconnection$"
     n = reached = 0
     for o in outs:
         if o.kind in ("unsupported", "unwound", "path-limit"):
